@@ -19,7 +19,7 @@ RULE = ("operation alphabet {set scalar/list element (overwrite, insert, delete,
         "distinct = distinct (seed tree, operation sequence)")
 ASSUMPTIONS = ["operations that raise end the sequence; the tree is not inspected after a raising operation"]
 SPEC = {
-    "quick": {"shards": 16, "time_cap": 150, "exh_len": 2, "random": 20000, "parse_statements": 1500, "opt_queries": 1500},
+    "quick": {"shards": 16, "time_cap": 400, "exh_len": 2, "random": 20000, "parse_statements": 1500, "opt_queries": 1500},
     "thorough": {"shards": 16, "time_cap": 1800, "exh_len": 3, "random": 100000, "parse_statements": 8000, "opt_queries": 8000},
 }
 
